@@ -14,7 +14,7 @@ import asyncio
 from hypothesis import strategies as st
 
 from .. import clients, packs, refcodec as R, vworld
-from ..runner import HarnessError, InvalidCase, Result, classify_exception
+from ..runner import HarnessError, InvalidCase, Result, SetupFailed, classify_exception
 
 ID = "C13"
 LEVEL = "exploration"
@@ -431,7 +431,7 @@ def _run_async(res, case, snap, pair, history, info):
                     live = [t for t in tm._tasks if not t.done() and t.get_name().startswith(("SPA:Set value", "SPA:Button press"))]
                     if not live and W.in_flight == 0 and spa._protocol.queue.qsize() == 0:
                         return
-                raise HarnessError("world did not settle after a command")
+                raise SetupFailed("world did not settle after a command")
 
             for poke, cmd in history:
                 clients.keep_ping_fresh(spa, W)
@@ -440,7 +440,7 @@ def _run_async(res, case, snap, pair, history, info):
                     await settle()
                     clients.keep_ping_fresh(spa, W)
                 if spa.struct.status_block != peer.block:
-                    raise HarnessError("client block differs from the model before a command")
+                    raise SetupFailed("client block differs from the model before a command")
                 before = peer.block
                 n0 = len(peer.commands)
                 plan = plan_command(res, info, fac, spa, pair, peer.model, cmd, before, wc_calls)
@@ -499,9 +499,9 @@ def _run_sync(res, case, snap, pair, history, info):
         fac = GeckoFacade(spa)
         spa.start_connect()
         if not stepped.run_until(eng, lambda: spa._is_connected and not eng.inbox and not spa._send_handlers, max_iterations=40000):
-            raise HarnessError("blocking handshake did not complete")
+            raise SetupFailed("blocking handshake did not complete")
         if fac.water_heater is None:
-            raise HarnessError("blocking facade was not built on connect")
+            raise SetupFailed("blocking facade was not built on connect")
         pack_type = spa.new_pack_class.type
 
         def settle():
@@ -512,7 +512,7 @@ def _run_sync(res, case, snap, pair, history, info):
                     return False
                 return not any(isinstance(h, GeckoPackCommandProtocolHandler) for h in spa._receive_handlers)
             if not stepped.run_until(eng, quiet, max_iterations=4000):
-                raise HarnessError("engine did not settle after a command")
+                raise SetupFailed("engine did not settle after a command")
             stepped.run_until(eng, lambda: eng.iterations >= 6, max_iterations=6)   # let a trailing STATQ / echo pass
 
         for poke, cmd in history:
@@ -521,7 +521,7 @@ def _run_sync(res, case, snap, pair, history, info):
                     eng.deliver(dg, stepped.SPA_ADDR)
                 settle()
             if spa.struct.status_block != model.block:
-                raise HarnessError("blocking client block differs from the model before a command")
+                raise SetupFailed("blocking client block differs from the model before a command")
             before = model.block
             n0 = len(model.commands)
             plan = plan_command(res, info, fac, spa, pair, model, cmd, before, None)
